@@ -415,6 +415,8 @@ def check(run):
     nfam = 1500 if thorough else 240
     nrule = 3000 if thorough else 320
     nbound = 1500 if thorough else 120
+    nnear = 400 if thorough else 50
+    import random as _random
     import time as _time
     t_phase = {"start": _time.time()}
     depth = 6 if thorough else 4
@@ -427,9 +429,12 @@ def check(run):
         "in both directions and through the model, every family through find_equivalent_patterns; plus, per run, "
         "%d instances of the listed rewrites applied at the root with generated sub-expressions (must be recognised) "
         "and %d patterns at the boundary of the absorption containment tests (repeated operands, sub-sequences, "
-        "swapped order); every normal form is also written back as pattern text and compared with the original by "
+        "swapped order); %d collections of near-duplicate members (one constant respelled: white space inside a string "
+        "literal, case, escapes, 1 / 1.0 / +1, set order; with repeats, in three orders, two queries each) where "
+        "find_equivalent_patterns must equal the member-by-member equivalent_patterns filter; "
+        "every normal form is also written back as pattern text and compared with the original by "
         "the independent evaluator; a case is non-trivial when the pattern(s) parsed, normalised and contain a "
-        "compound node" % (depth, nrule, nbound))
+        "compound node" % (depth, nrule, nbound, nnear))
     with common.Lock():
         res = common.build_props("Props/C09.v")
         run.add_build(res, "make -C coq Props/C09.vo (coqc 8.16.1, full .vo) + Print Assumptions per theorem")
@@ -683,6 +688,57 @@ def check(run):
             run.violations.append(Violation(
                 "find_equivalent_patterns returns members %s, the pairwise test says %s" % (r["r"], want),
                 {"kind": "find", "p": a.text, "ps": [x.text for x in coll]}))
+    # ---- oracle: a collection of NEAR-DUPLICATES (one constant respelled: white space inside a string, case,
+    #      escapes, 1 / 1.0 / +1, set order), with repeats, in three orders: find_equivalent_patterns must return
+    #      exactly the members for which equivalent_patterns(query, member) is True, member by member
+    near_rng = _random.Random(run.seed * 7919 + 13)
+    g2 = G.Gen(near_rng, 2)
+    near = []           # (query text, [member texts])
+    for n in range(nnear):
+        for _ in range(20):
+            base = G.normalize_shape(g2.pattern())
+            if not G.leaf_qualifier_clash(base) and G.size(base) <= 25 and not G.too_costly(base):
+                break
+        else:
+            continue
+        vs = G.near_duplicates(near_rng, base)
+        texts = []
+        for ast, _name in vs:
+            try:
+                texts.append(G.print_o(G.normalize_shape(ast), near_rng, 0.05)[0])
+            except Exception:  # noqa: BLE001
+                pass
+        if len(texts) < 3:
+            continue
+        other = pats[near_rng.randrange(len(pats))] if pats else None
+        extra = [other.text] if other is not None and usable(other) and not is_exc(other.impl.get("norm")) else []
+        coll = texts + extra + [texts[0], texts[near_rng.randrange(len(texts))]]
+        shuffled = list(coll)
+        near_rng.shuffle(shuffled)
+        for q in (texts[0], texts[near_rng.randrange(1, len(texts))]):
+            for c in (coll, coll[::-1], shuffled):
+                near.append((q, c))
+    pair_keys = sorted({(q, x) for q, c in near for x in c})
+    pair_res = dict(zip(pair_keys, common.run_impl("c09_impl", [{"op": "equiv", "p": q, "q": x} for q, x in pair_keys])))
+    near_res = common.run_impl("c09_impl", [{"op": "find", "p": q, "ps": c} for q, c in near])
+    stats["find_near_duplicates"] = 0
+    stats["find_near_duplicates_some_but_not_all"] = 0
+    for (q, c), r in zip(near, near_res):
+        prs = [pair_res[(q, x)] for x in c]
+        if any(is_exc(x) for x in prs):
+            continue        # a member that does not normalise: reported (or listed) by the crash oracle
+        run.count({"op": "find", "p": q, "ps": c}, nontrivial=True)
+        want = [i for i, x in enumerate(prs) if x["r"] is True]
+        stats["find_near_duplicates"] += 1
+        if 0 < len(want) < len(c):
+            stats["find_near_duplicates_some_but_not_all"] += 1
+        if is_exc(r) or r["r"] != want:
+            run.violations.append(Violation(
+                "find_equivalent_patterns returns members %s, the pairwise test says %s (near-duplicate members)"
+                % (r.get("r", r), want), {"kind": "find", "p": q, "ps": c}))
+            if len([v for v in run.violations if v.replay and v.replay.get("kind") == "find"]) > 5:
+                break
+
     # ---- oracle: the normal form itself is a pattern equivalent_patterns reports equivalent to the
     #      original; written back as text it must match the same observation sequences
     t_phase["pairs_done"] = _time.time()
